@@ -461,7 +461,7 @@ _ROUND8 = {
     "C04": "Also: proxy.strategy in every spelling Load accepts through main.go's proxy (rr exact, rnd everybody served, no panic); lookups on 2-4 routes interleaved at random: every route keeps its own cycle.",
     "C06": "Also: tcp.DynamicProxy with an ip:port route and a :port route on one port: connections served by one route do not use up places in the other's cycle.",
     "C07": "Also: fabio's own transport (transport.NewTransport) between proxy and upstream; response header blocks of 70-300 KB.",
-    "C09": "Also: a reply of 3-6 MiB to a client that starts reading 300-700 ms later, through a listener opened by proxy.ListenAndServeTCP; record versions 3.2 / 3.3 in the hello's record header.",
+    "C09": "Also: a reply of 3-6 MiB to a client that starts reading 300-700 ms later, through a listener opened by proxy.ListenAndServeTCP; record versions 3.2 / 3.3 in the hello's record header; one tunnel on the shared port of an https+tcp+sni listener that is silent for 10.5 s and carries bytes afterwards.",
     "C10": "Also: record versions 3.0-3.4 in the record header of built hellos; tcp:// routes with other options (pxyproto, allow, tags) on the shared port.",
     "C11": "Also: hidden neighbours of the certificate files (editor swap file, ..data symlink); clients without server name before and after a renewal through a listener opened with the listener's TLS configuration.",
     "C12": "Also: deny lists as an operator types them into a route command (blank after the comma, doubled or trailing comma): a peer inside any written block is refused.",
